@@ -203,6 +203,14 @@ func registerSched() {
 		Assume: []string{"dump excludes tasksToAllocate caches, fit errors, topology scratch scores and GPUGroups of pods that are not on a node",
 			"a discard/rollback is judged only if no other statement with pending operations was alive and no commit happened in between"}})
 	run.Register(&SchedCheck{Id: "C10", Profile: "mixed", Quick: 1600, Thorough: 40000, PanicIsViolation: true, TimeoutCase: 10 * time.Second,
+		// every fourth base case is a full cluster with pending work in starved queues (gen.Contention): the malformed
+		// objects then also pass through victim selection and the scenario solvers of reclaim / preempt / consolidation
+		Gen: func(seed int64, idx int, tier string) *spec.Case {
+			if idx%4 == 1 {
+				return gen.Contention(seed, idx, tier)
+			}
+			return gen.Generate("mixed", seed, idx, tier)
+		},
 		Mutate: func(c *spec.Case, seed int64, idx int) {
 			r := gen.NewRand(seed, idx, 10)
 			c.Faults = spec.Faults{}
@@ -228,20 +236,28 @@ func registerSched() {
 				st.Inc("mutation_" + m)
 			}
 			st.NonTrivial = len(muts) > 0
+			bound := map[string]bool{}
 			for _, h := range hist {
 				if h.Panic != "" {
 					return nil // reported as sut-panic
 				}
 				for _, e := range h.Events {
-					if e.Kind == "bind" && e.Pod == gen.ControlPod && e.Err == "" && e.Node == gen.ControlNode {
-						st.Inc("control_workload_bound")
-						return nil
+					if e.Kind == "bind" && (e.Pod == gen.ControlPod || e.Pod == gen.ControlPod2) && e.Err == "" && e.Node == gen.ControlNode {
+						bound[e.Pod] = true
 					}
 				}
 			}
+			if bound[gen.ControlPod] && bound[gen.ControlPod2] {
+				st.Inc("control_workload_bound")
+				return nil
+			}
+			which := "first"
+			if bound[gen.ControlPod] {
+				which = "second"
+			}
 			return []run.Violation{oracle.Viol("C10", "control-workload-not-scheduled", strings.Join(muts, "+"), 0,
-				"the healthy control workload (own queue %s, dedicated node %s) was not bound in %d cycles; malformed objects: %v", gen.ControlQueue, gen.ControlNode, len(hist), muts)}
+				"the %s healthy control workload (own queue %s, dedicated node %s) was not bound in %d cycles; malformed objects: %v", which, gen.ControlQueue, gen.ControlNode, len(hist), muts)}
 		},
-		RuleText: genRule + "Each case = a valid cluster + 1-5 malformed-object mutations (queue self-parent / cycles / missing parents / nil resources / absurd quotas, bad sub-group graphs, non-positive or huge minimums, pods without containers or pod group, garbage GPU annotations incl. NaN/Inf/overflow, nodes without labels / zero, negative or empty allocatable / garbage GPU labels, dangling BindRequests, empty topologies, missing priority classes) + a healthy control workload on its own queue and node. Oracle: no panic (in-process recover or worker crash), termination (10 s watchdog (~75x a normal cycle), a watchdog is confirmed by re-running the case alone with 40 s; a worker killed by the watchdog counts as a hang only if a goroutine is running inside KAI code), control workload bound. Non-trivial: a case with >= 1 mutation.",
+		RuleText: genRule + "Each case = a valid cluster + 1-5 malformed-object mutations (queue self-parent / cycles / missing parents / nil resources / absurd quotas, bad sub-group graphs, non-positive or huge minimums, pods without containers or pod group, garbage GPU annotations incl. NaN/Inf/overflow, nodes without labels / zero, negative or empty allocatable / garbage GPU labels, dangling BindRequests, empty topologies, missing priority classes) + two healthy control workloads (an older and a younger one) on their own queue and node. Oracle: no panic (in-process recover or worker crash), termination (10 s watchdog (~75x a normal cycle), a watchdog is confirmed by re-running the case alone with 40 s; a worker killed by the watchdog counts as a hang only if a goroutine is running inside KAI code), both control workloads bound within the 2 cycles. Every fourth base cluster is a full one with starved queues (gen.Contention) so that malformed objects also pass through victim selection and the scenario solvers. Non-trivial: a case with >= 1 mutation.",
 		Assume:   []string{"a watchdog firing without a running KAI goroutine is inconclusive", "every 8th case carries no mutation (well-formed input)"}})
 }
